@@ -325,7 +325,10 @@ func (c *planController) Reader(stream, name string, r io.Reader) io.Reader {
 		}
 	}
 	if rp == nil {
-		rp = &ReaderPlan{Stream: stream, Name: name, ErrAt: -1}
+		// no schedule or fault asked for this stream: yq keeps its own reader (nothing between
+		// opening the file and reading it is bypassed)
+		c.emit("open", key, occ, "unhooked", "", false, true)
+		return nil
 	}
 	c.emit("open", key, occ, "pass", "", false, true)
 	return &planReader{c: c, plan: rp, site: key, src: r}
